@@ -290,7 +290,12 @@ SUBST_EXTRA = [
     # the same name at another sort must stay untouched; sibling binders that differ in a trailing index
     ("t(X$i + 1, X)", "X", "5"), ("t(N$i, N)", "N", "M$i"), ("p(X$s) and q(X)", "X", "a"), ("exists Y (t(X, Y) and p(X$i))", "X", "Y$i + 1"),
     ("forall Y$i Y1$i (t(X$i, Y$i) and p(Y1$i))", "X$i", "Y$i + Y1$i"), ("forall Y$i Y1$i (t(Y$i, Y1$i) or p(X$i))", "X$i", "Y$i + Y1$i"),
-    ("exists Y$i Y1$i (Y$i < Y1$i and p(X$i))", "X$i", "Y$i * Y1$i"), ("forall N$i N1$i (N$i = N1$i -> p(X$i))", "X$i", "N$i - N1$i"),
+    ("exists Y$i Y1$i (Y$i < Y1$i and p(X$i))", "X$i", "Y$i * Y1$i"), ("forall N$i N1$i (q(N$i) and q(N1$i) -> N$i = N1$i or p(X$i))", "X$i", "N$i - N1$i"),
+    ("exists Y$i Y1$i (t(Y$i, Y1$i) and p(X$i))", "X$i", "Y$i + Y1$i"), ("exists Y Y1 (t(Y, Y1) and t(X, Y))", "X", "Y1"), ("exists V1 V2 (t(V1, V2) and p(X))", "X", "V1$i + V2$i"),
+    # the variable that is replaced is the name a renamed binder would get (it need not occur free at all)
+    ("exists Y q(Y)", "Y1", "Y"), ("p(Y1) and exists Y (q(Y))", "Y1", "Y"), ("exists Y (t(Y, Y1))", "Y1", "Y"), ("forall Y (q(Y) -> exists Y1 t(Y, Y1))", "Y1", "Y"),
+    ("exists N$i (p(N$i) and N$i > 0)", "N1$i", "N$i + 1"), ("q(X1) or exists X (p(X) and not q(X))", "X1", "X"), ("exists Y Y1 (t(Y, Y1))", "Y2", "Y"),
+    ("exists Y (q(Y) and exists Y1 (t(Y, Y1) and p(Y11)))", "Y11", "Y1"),
     ("exists Y$i Y1$i Y2$i (t(Y$i, Y1$i) and t(Y1$i, Y2$i) and p(X$i))", "X$i", "Y$i + Y1$i + Y2$i"), ("forall Y Y1 (t(X, Y) and p(Y1))", "X", "Y"),
     ("exists Y Y1 Y2 (t(X, Y) and t(Y1, Y2))", "X", "Y1"), ("forall X$i (p(X$i) -> q(X))", "X", "X$i"), ("p(X$i) and p(X$s) and p(X)", "X$i", "X$i + 1"),
 ]
